@@ -184,12 +184,16 @@ def build_problem(env, p, scopes):
 
 
 def call_builder(env, p, module, variables, cons):
-    """hand the problem to module.build_computation_graph in one of the ways the API allows"""
+    """hand the problem to module.build_computation_graph in one of the ways the API allows
+    -> (via, graph or Raised, frame) ; frame: the _Frame snapshot of everything handed over, taken before the call"""
     from pydcop.dcop.dcop import DCOP
     vias = p.get("vias", ["dcop", "lists"])
     via = env.choice("via", vias) if len(vias) > 1 else vias[0]
     if via == "lists":
-        return via, _call(env, p, module.build_computation_graph, None, variables=list(variables), constraints=list(cons))
+        # the caller keeps the two lists it hands over (frame: they are his, the builder only reads them)
+        vlist, clist = list(variables), list(cons)
+        fr = _Frame(env, p, module, variables, cons, lists=(vlist, clist))
+        return via, fr.build(), fr
     dcop = DCOP("g", "min")
     if via == "dcop":
         for v in variables:
@@ -205,7 +209,8 @@ def call_builder(env, p, module, variables, cons):
                 dcop.add_variable(v)
     else:
         raise ValueError(via)
-    return via, _call(env, p, module.build_computation_graph, dcop)
+    fr = _Frame(env, p, module, variables, cons, dcop=dcop)
+    return via, fr.build(), fr
 
 
 def _depth():
@@ -228,6 +233,119 @@ def _call(env, p, fn, *a, **kw):
         return env.call(fn, *a, **kw)
     finally:
         sys.setrecursionlimit(old)
+
+
+# ------------------------------------------------------------------ frame: the builders only read what they are given
+
+_VALUE_CELLS = 16      # a constraint with more cells than this is observed by name and scope only
+
+
+def _guard(f):
+    """an observation that fails is an observation (it differs from the one taken before the call)"""
+    try:
+        return f()
+    except Exception as e:  # noqa
+        return ("observation-raised", type(e).__name__, str(e)[:200])
+
+
+def _obs_variable(v):
+    vals = list(v.domain.values)
+    return (id(v), v.name, id(v.domain), v.domain.name, tuple(vals), v.initial_value,
+            tuple(v.cost_for_val(x) for x in vals))
+
+
+def _obs_constraint(c, values):
+    """what a caller sees of a constraint: its name, its scope (the variable objects, in order) and, for the
+    small ones, its value on every assignment"""
+    dims = list(c.dimensions)
+    names = [v.name for v in dims]
+    out = [id(c), c.name, tuple(id(v) for v in dims), tuple(names)]
+    if values:
+        doms = [list(v.domain.values) for v in dims]
+        if math.prod(len(d) for d in doms) <= _VALUE_CELLS:
+            out.append(tuple(c(**dict(zip(names, vals))) for vals in itertools.product(*doms)))
+    return tuple(out)
+
+
+def _obs_dict(d):
+    return tuple((k, id(v)) for k, v in d.items())
+
+
+class _Frame:
+    """Everything handed to build_computation_graph (the two lists or the DCOP, the variables, the constraints)
+    observed through the public API before the call; `check` observes again and states that nothing moved.
+    Identity (``id``) is the identity of the objects *held by the caller*: the same objects, in the same
+    containers, in the same order.  Private attributes are never looked at."""
+
+    def __init__(self, env, p, module, variables, cons, lists=None, dcop=None):
+        self.env, self.p, self.module = env, p, module
+        self.variables, self.cons = list(variables), list(cons)
+        self.lists, self.dcop = lists, dcop
+        self.values = len(self.variables) <= 40
+        self.before = self.observe()
+
+    def build(self):
+        """the call under contract, on the objects the caller holds (again and again the same ones)"""
+        if self.lists is not None:
+            return _call(self.env, self.p, self.module.build_computation_graph, None,
+                         variables=self.lists[0], constraints=self.lists[1])
+        return _call(self.env, self.p, self.module.build_computation_graph, self.dcop)
+
+    def _containers(self):
+        if self.lists is not None:
+            return tuple(tuple(id(x) for x in l) for l in self.lists)
+        d = self.dcop
+        return (d.name, d.objective, _obs_dict(d.variables), _obs_dict(d.constraints), _obs_dict(d.domains),
+                _obs_dict(d.agents), _obs_dict(d.external_variables), tuple(id(v) for v in d.all_variables))
+
+    def observe(self):
+        return dict(
+            containers=_guard(self._containers),
+            variables=_guard(lambda: tuple(_obs_variable(v) for v in self.variables)),
+            constraints=_guard(lambda: tuple(_obs_constraint(c, self.values) for c in self.cons)))
+
+    def check(self, prove, area, info, when=""):
+        after = self.observe()
+        what = dict(containers="the-lists-or-the-dcop-handed-over-hold-the-same-objects-in-the-same-order",
+                    variables="variables-and-their-domains-unchanged",
+                    constraints="constraints-keep-their-name-scope-and-values")
+        for key in ("containers", "variables", "constraints"):
+            b, a = self.before[key], after[key]
+            prove("%s.frame.%s%s" % (area, what[key], when), a == b,
+                  detail=lambda: (info(), key, "before", b if self.values else None, "after", a if self.values else None))
+
+
+def _scribble(g):
+    """what the owner of a graph may do with it: extend the lists its nodes publish.  Nothing of that may
+    reach the DCOP / the lists / the constraints the graph was built from."""
+    mark = "<frame-mark>"
+    for nd in list(g.nodes):
+        for attr in ("constraints", "variables", "constraints_names", "neighbors", "links"):
+            x = _guard(lambda: getattr(nd, attr, None))
+            if isinstance(x, list):
+                x.append(mark)
+    if isinstance(g.nodes, list):
+        g.nodes.append(mark)
+
+
+def _frame_epilogue(env, prove, area, fr, g, info, second=None):
+    """the frame obligations of the four builders, stated after the obligations of the property:
+      1. the inputs are as they were before the call;
+      2. (small problems) a second graph built from the very same objects satisfies `second` (the same oracle as
+         the first one) - a builder that consumed / marked its inputs gives a wrong second graph;
+      3. writing into the lists published by the returned graph(s) does not reach the inputs."""
+    fr.check(prove, area, info)
+    graphs = [g]
+    if second is not None and fr.values:
+        g2 = fr.build()
+        if isinstance(g2, Raised):
+            prove(area + ".frame.second-build-from-the-same-inputs-does-not-raise", False, detail=lambda: (info(), g2.tb[-1500:]))
+        else:
+            second(g2)
+            graphs.append(g2)
+    for x in graphs:
+        _guard(lambda: _scribble(x))
+    fr.check(prove, area, info, when="-after-a-second-build-and-writing-into-the-returned-graphs")
 
 
 # ------------------------------------------------------------------ oracle (from the scope list only)
@@ -302,7 +420,7 @@ def h_hypergraph(env, prove, p):
         return
     scopes = pick_scopes(env, p)
     names, variables, cons, cscope = build_problem(env, p, scopes)
-    via, g = call_builder(env, p, m, variables, cons)
+    via, g, fr = call_builder(env, p, m, variables, cons)
     info = lambda: dict(scopes=cscope, via=via, variables=[v.name for v in variables])  # noqa
     if isinstance(g, Raised):
         prove("hypergraph.build-does-not-raise", False, detail=lambda: (info(), g.tb))
@@ -348,6 +466,17 @@ def h_hypergraph(env, prove, p):
     exp_gl = sorted((c, tuple(sorted(s))) for c, s in cscope.items())
     prove("hypergraph.graph-links-are-the-constraints", gl == exp_gl, detail=lambda: (info(), gl, exp_gl))
 
+    # ---- frame
+    def second(g2):
+        got = _guard(lambda: sorted(
+            (nd.name, nd.variable == var_by_name.get(nd.name), sorted(c.name for c in nd.constraints), sorted(nd.neighbors),
+             sorted((getattr(l, "name", None), tuple(sorted(l.nodes))) for l in nd.links)) for nd in g2.nodes))
+        exp = sorted((nm, True, sorted(cons_of[nm]), sorted(nbrs_of[nm]),
+                      sorted((c, tuple(sorted(cscope[c]))) for c in cons_of[nm])) for nm in names)
+        prove("hypergraph.frame.second-graph-built-from-the-same-inputs-mirrors-the-dcop-too", got == exp,
+              detail=lambda: (info(), got, exp))
+    _frame_epilogue(env, prove, "hypergraph", fr, g, info, second)
+
 
 # ------------------------------------------------------------------ C16: factor graph
 
@@ -358,7 +487,7 @@ def h_factor_graph(env, prove, p):
         return
     scopes = pick_scopes(env, p)
     names, variables, cons, cscope = build_problem(env, p, scopes)
-    via, g = call_builder(env, p, m, variables, cons)
+    via, g, fr = call_builder(env, p, m, variables, cons)
     info = lambda: dict(scopes=cscope, via=via, variables=[v.name for v in variables])  # noqa
     if isinstance(g, Raised):
         prove("factorgraph.build-does-not-raise", False, detail=lambda: (info(), g.tb))
@@ -415,6 +544,16 @@ def h_factor_graph(env, prove, p):
                   for l in g.links for f, v in [(getattr(l, "factor_node", None), getattr(l, "variable_node", None))]),
               detail=lambda: (info(), list(g.links)))
 
+    # ---- frame
+    def second(g2):
+        got = _guard(lambda: (sorted((nd.name, sorted(nd.neighbors), pairs(nd.links)) for nd in g2.nodes), pairs(g2.links)))
+        exp = (sorted([(nm, sorted(cons_of[nm]), sorted((c, nm) for c in cons_of[nm])) for nm in names]
+                      + [(cn, sorted(cscope[cn]), sorted((cn, v) for v in cscope[cn])) for cn in cnames]),
+               sorted(exp_links))
+        prove("factorgraph.frame.second-graph-built-from-the-same-inputs-mirrors-the-dcop-too", got == exp,
+              detail=lambda: (info(), got, exp))
+    _frame_epilogue(env, prove, "factorgraph", fr, g, info, second)
+
 
 # ------------------------------------------------------------------ C16: ordered graph
 
@@ -425,7 +564,7 @@ def h_ordered_graph(env, prove, p):
         return
     scopes = pick_scopes(env, p)
     names, variables, cons, cscope = build_problem(env, p, scopes)
-    via, g = call_builder(env, p, m, variables, cons)
+    via, g, fr = call_builder(env, p, m, variables, cons)
     info = lambda: dict(scopes=cscope, via=via, variables=[v.name for v in variables])  # noqa
     if isinstance(g, Raised):
         prove("orderedgraph.build-does-not-raise", False, detail=lambda: (info(), g.tb))
@@ -470,6 +609,14 @@ def h_ordered_graph(env, prove, p):
         cur = nxt.get(cur)
     prove("orderedgraph.single-chain-through-all-variables", len(starts) == 1 and seen == lex, detail=lambda: (info(), starts, seen))
 
+    # ---- frame
+    def second(g2):
+        got = _guard(lambda: sorted((nd.name, nd.get_previous(), nd.get_next()) for nd in g2.nodes))
+        exp = [(nm, lex[i - 1] if i > 0 else None, lex[i + 1] if i + 1 < len(lex) else None) for i, nm in enumerate(lex)]
+        prove("orderedgraph.frame.second-graph-built-from-the-same-inputs-chains-the-variables-in-lexical-order-too",
+              got == exp, detail=lambda: (info(), got, exp))
+    _frame_epilogue(env, prove, "orderedgraph", fr, g, info, second)
+
 
 # ------------------------------------------------------------------ C17: pseudo-tree
 
@@ -481,7 +628,7 @@ def h_pseudotree(env, prove, p):
     scopes = pick_scopes(env, p)
     names, variables, cons, cscope = build_problem(env, p, scopes)
     big = len(names) > 40
-    via, g = call_builder(env, p, m, variables, cons)
+    via, g, fr = call_builder(env, p, m, variables, cons)
     if big:
         info = lambda: dict(family=p.get("family"), n=p["n"], via=via)  # noqa
     else:
@@ -497,9 +644,18 @@ def h_pseudotree(env, prove, p):
         prove("pseudotree.construction-never-raises-on-long-chains", True)
     else:
         prove("pseudotree.construction-never-raises", True)
+    _check_pseudotree(env, prove, p, m, g, names, variables, cscope, info, big, "pseudotree.")
+    # ---- frame (the second tree, built from the very same objects, is judged by the same oracle as the first)
+    _frame_epilogue(env, prove, "pseudotree", fr, g, info,
+                    lambda g2: _check_pseudotree(env, prove, p, m, g2, names, variables, cscope, info, big,
+                                                 "pseudotree.frame.second-build-from-the-same-inputs."))
+
+
+def _check_pseudotree(env, prove, p, m, g, names, variables, cscope, info, big, L):
+    """the postcondition of C17 on a built graph; L: label prefix"""
     cons_of, nbrs_of = model(names, cscope)
     nodes = list(g.nodes)
-    prove("pseudotree.one-node-per-variable", sorted(nd.name for nd in nodes) == sorted(names),
+    prove(L + "one-node-per-variable", sorted(nd.name for nd in nodes) == sorted(names),
               detail=lambda: (info(), [nd.name for nd in nodes][:50]))
     byname = _nodes_by_name(nodes)
     if any(len(byname.get(nm, [])) != 1 for nm in names) or len(byname) != len(names):
@@ -509,45 +665,45 @@ def h_pseudotree(env, prove, p):
     TYPES = ("parent", "children", "pseudo_parent", "pseudo_children")
     for nm in names:
         nd = byname[nm][0]
-        prove("pseudotree.node-holds-its-variable", nd.variable == var_by_name[nm] and nd.variable.name == nm, detail=lambda: (info(), nm))
+        prove(L + "node-holds-its-variable", nd.variable == var_by_name[nm] and nd.variable.name == nm, detail=lambda: (info(), nm))
         rel = env.call(m.get_dfs_relations, nd)
         if isinstance(rel, Raised):
-            prove("pseudotree.get_dfs_relations-does-not-raise", False, detail=lambda: (info(), nm, rel.tb))
+            prove(L + "get_dfs_relations-does-not-raise", False, detail=lambda: (info(), nm, rel.tb))
             return
         parent[nm], pps[nm], children[nm], pcs[nm] = rel[0], list(rel[1]), list(rel[2]), list(rel[3])
         links = list(nd.links)
-        prove("pseudotree.links-start-at-their-node-end-at-another-node-and-are-typed",
+        prove(L + "links-start-at-their-node-end-at-another-node-and-are-typed",
                   all(l.type in TYPES and l.source == nm and l.target in byname and l.target != nm for l in links),
                   detail=lambda: (info(), nm, links))
-        prove("pseudotree.at-most-one-parent-link", sum(1 for l in links if l.type == "parent") <= 1, detail=lambda: (info(), nm, links))
+        prove(L + "at-most-one-parent-link", sum(1 for l in links if l.type == "parent") <= 1, detail=lambda: (info(), nm, links))
         # get_dfs_relations and the links tell the same story
         by_type = {t: sorted(l.target for l in links if l.type == t) for t in TYPES}
-        prove("pseudotree.get_dfs_relations-agrees-with-links",
+        prove(L + "get_dfs_relations-agrees-with-links",
                   by_type["parent"] == ([parent[nm]] if parent[nm] is not None else [])
                   and by_type["children"] == sorted(children[nm]) and by_type["pseudo_parent"] == sorted(pps[nm])
                   and by_type["pseudo_children"] == sorted(pcs[nm]), detail=lambda: (info(), nm, by_type, rel))
         for lst, what in ((children[nm], "children"), (pps[nm], "pseudo-parents"), (pcs[nm], "pseudo-children")):
-            prove("pseudotree.no-node-listed-twice-among-%s" % what, len(lst) == len(set(lst)), detail=lambda: (info(), nm, lst))
+            prove(L + "no-node-listed-twice-among-%s" % what, len(lst) == len(set(lst)), detail=lambda: (info(), nm, lst))
         got = [c.name for c in nd.constraints]
-        prove("pseudotree.node-carries-exactly-the-constraints-on-its-variable", set(got) == cons_of[nm],
+        prove(L + "node-carries-exactly-the-constraints-on-its-variable", set(got) == cons_of[nm],
                   detail=lambda: (info(), nm, got, sorted(cons_of[nm])))
-        prove("pseudotree.node-carries-each-constraint-once", len(got) == len(set(got)), detail=lambda: (info(), nm, got))
+        prove(L + "node-carries-each-constraint-once", len(got) == len(set(got)), detail=lambda: (info(), nm, got))
     # mutual consistency of the four link kinds
     for nm in names:
         if parent[nm] is not None:
-            prove("pseudotree.parent-lists-node-among-its-children", nm in children.get(parent[nm], ()),
+            prove(L + "parent-lists-node-among-its-children", nm in children.get(parent[nm], ()),
                       detail=lambda: (info(), nm, parent[nm], children.get(parent[nm])))
         for c in children[nm]:
-            prove("pseudotree.child-has-node-as-parent", parent.get(c) == nm, detail=lambda: (info(), nm, c, parent.get(c)))
+            prove(L + "child-has-node-as-parent", parent.get(c) == nm, detail=lambda: (info(), nm, c, parent.get(c)))
         for a in pps[nm]:
-            prove("pseudotree.pseudo-parent-lists-node-among-its-pseudo-children", nm in pcs.get(a, ()),
+            prove(L + "pseudo-parent-lists-node-among-its-pseudo-children", nm in pcs.get(a, ()),
                       detail=lambda: (info(), nm, a, pcs.get(a)))
         for c in pcs[nm]:
-            prove("pseudotree.pseudo-child-lists-node-among-its-pseudo-parents", nm in pps.get(c, ()),
+            prove(L + "pseudo-child-lists-node-among-its-pseudo-parents", nm in pps.get(c, ()),
                       detail=lambda: (info(), nm, c, pps.get(c)))
         tree_nb = set(children[nm]) | ({parent[nm]} if parent[nm] is not None else set())
         back_nb = set(pps[nm]) | set(pcs[nm])
-        prove("pseudotree.a-pair-is-a-tree-edge-or-a-back-edge-not-both",
+        prove(L + "a-pair-is-a-tree-edge-or-a-back-edge-not-both",
                   not (tree_nb & back_nb) and not (set(pps[nm]) & set(pcs[nm])) and parent[nm] not in children[nm],
                   detail=lambda: (info(), nm, parent[nm], children[nm], pps[nm], pcs[nm]))
     # no cycles: parent pointers lead to a root in < n steps; depth by iteration (no recursion in the oracle)
@@ -565,7 +721,7 @@ def h_pseudotree(env, prove, p):
         base = depth[cur] if cur is not None else -1
         for i, x in enumerate(reversed(path)):
             depth[x] = base + 1 + i
-    prove("pseudotree.parent-links-have-no-cycle", acyclic, detail=lambda: (info(), parent if not big else None))
+    prove(L + "parent-links-have-no-cycle", acyclic, detail=lambda: (info(), parent if not big else None))
     if not acyclic:
         return
     # walking down the children links from the roots meets every node exactly once
@@ -578,7 +734,7 @@ def h_pseudotree(env, prove, p):
         steps += 1
         seen[x] = seen.get(x, 0) + 1
         stack.extend(children[x])
-    prove("pseudotree.children-links-from-the-roots-reach-every-node-once",
+    prove(L + "children-links-from-the-roots-reach-every-node-once",
               not stack and sorted(seen) == sorted(names) and all(v == 1 for v in seen.values()),
               detail=lambda: (info(), roots, seen if not big else None))
 
@@ -592,21 +748,21 @@ def h_pseudotree(env, prove, p):
 
     for nm in names:
         for a in pps[nm]:
-            prove("pseudotree.back-edges-lead-to-an-ancestor", is_ancestor(a, nm), detail=lambda: (info(), nm, a, parent if not big else None))
+            prove(L + "back-edges-lead-to-an-ancestor", is_ancestor(a, nm), detail=lambda: (info(), nm, a, parent if not big else None))
         linked = set(children[nm]) | set(pps[nm]) | set(pcs[nm]) | ({parent[nm]} if parent[nm] is not None else set())
         # a DFS forest *of the constraint graph*: its edges are edges of that graph
-        prove("pseudotree.every-link-joins-two-constraint-sharing-variables", linked <= nbrs_of[nm],
+        prove(L + "every-link-joins-two-constraint-sharing-variables", linked <= nbrs_of[nm],
                   detail=lambda: (info(), nm, sorted(linked), sorted(nbrs_of[nm])))
         for o in nbrs_of[nm]:
             if o < nm:
                 continue
             up, down = (o, nm) if depth[o] < depth[nm] else (nm, o)
-            prove("pseudotree.constraint-sharing-pair-is-ancestor-and-descendant", is_ancestor(up, down),
+            prove(L + "constraint-sharing-pair-is-ancestor-and-descendant", is_ancestor(up, down),
                       detail=lambda: (info(), nm, o, parent if not big else None))
-            prove("pseudotree.constraint-sharing-pair-directly-linked-by-tree-or-back-edge",
+            prove(L + "constraint-sharing-pair-directly-linked-by-tree-or-back-edge",
                       (parent[down] == up and down in children[up]) or (up in pps[down] and down in pcs[up]),
                       detail=lambda: (info(), up, down, parent[down], children[up], pps[down], pcs[up]))
-        prove("pseudotree.node-neighbours-are-the-linked-nodes", set(byname[nm][0].neighbors) == linked,
+        prove(L + "node-neighbours-are-the-linked-nodes", set(byname[nm][0].neighbors) == linked,
                   detail=lambda: (info(), nm, sorted(byname[nm][0].neighbors), sorted(linked)))
 
 
